@@ -153,6 +153,14 @@ def bi_isinstance(eng, args, kwargs, fr):
     return _isinst(eng, v, c)
 
 
+def bi_defaultdict(eng, args, kwargs, fr):
+    """collections.defaultdict(int): used for heuristic counters only (values/OpaqueTable)"""
+    from .values import OpaqueTable
+    if len(args) == 1 and isinstance(args[0], (Builtin, BuiltinClass)) and args[0].name == "int" and not kwargs:
+        return eng.alloc(OpaqueTable("defaultdict(int)"))
+    raise Unsupported("defaultdict of something else than int")
+
+
 def bi_callable(eng, args, kwargs, fr):
     return isinstance(args[0], (Closure, BoundMethod, Builtin, ClassRef, BuiltinClass))
 
@@ -206,6 +214,8 @@ def bi_range(eng, args, kwargs, fr):
 def bi_enumerate(eng, args, kwargs, fr):
     if isinstance(args[0], SetVal) and len(args) == 1:
         return SeqIter("enumset", args[0])
+    if isinstance(args[0], SV) and args[0].t == "key" and len(args) == 1:
+        return SeqIter("enumkey", args[0])
     c = eng.concrete_iter(args[0])
     if c is None:
         raise Unsupported("enumerate over symbolic sequence")
@@ -1120,6 +1130,8 @@ def eval_comprehension(eng, n, fr, kind):
             for k, v in out:
                 eng.raw_setitem(d, k, v)
             return d
+        if all(isinstance(x, (tuple, int, str)) for x in out):
+            return frozenset(out)
         raise Unsupported("set comprehension")
     # [z[i] for i in k]  over a symbolic key
     if kind == "list" and isinstance(src, SV) and src.t == "key" and not g.ifs and isinstance(g.target, ast.Name):
